@@ -1758,24 +1758,29 @@ template <class S>
 IMATH_HOSTDEVICE
     IMATH_CONSTEXPR14 inline Vec3<T>::Vec3 (const Vec4<S>& v, InfException)
 {
-    T vx = T (v.x);
-    T vy = T (v.y);
-    T vz = T (v.z);
-    T vw = T (v.w);
+    // Guard and divide in S, exactly as the unchecked constructor does
+    // (T (v.x / v.w)), so that both forms give the same bits; the
+    // quotient has to fit the narrower of the two element types.
 
-    T absW = (vw >= T (0)) ? vw : -vw;
+    S absW = (v.w >= S (0)) ? v.w : -v.w;
 
-    if (absW < 1)
+    const S lim = (std::numeric_limits<S>::max_exponent <=
+                   std::numeric_limits<T>::max_exponent)
+                      ? std::numeric_limits<S>::max ()
+                      : S (std::numeric_limits<T>::max ());
+
+    if (absW < 1 || lim < std::numeric_limits<S>::max ())
     {
-        T m = baseTypeMax () * absW;
+        S m = lim * absW;
 
-        if (vx <= -m || vx >= m || vy <= -m || vy >= m || vz <= -m || vz >= m)
+        if (v.x <= -m || v.x >= m || v.y <= -m || v.y >= m || v.z <= -m ||
+            v.z >= m)
             throw std::domain_error ("Cannot normalize point at infinity.");
     }
 
-    x = vx / vw;
-    y = vy / vw;
-    z = vz / vw;
+    x = T (v.x / v.w);
+    y = T (v.y / v.w);
+    z = T (v.z / v.w);
 }
 
 template <class T>
